@@ -46,7 +46,10 @@ def _ber_len(b, i):
 
 
 def der_sig_parse(sig):
-    """Most lenient reading of ``sig`` as SEQUENCE{INTEGER r, INTEGER s}.
+    """Most lenient reading of ``sig`` as SEQUENCE{INTEGER r, INTEGER s}: length octets and integer
+    padding may be non-minimal, integers may look negative - but the sequence must cover the whole
+    field and the two integers the whole sequence (bytes that belong to no part of the structure
+    make the field something else than a signature, for every library).
 
     -> (r, s, strict) or None when there is no such reading.  ``strict`` is True iff the
     encoding is the unique DER encoding of (r, s) (BIP66 rules without the low-S rule)."""
@@ -57,10 +60,8 @@ def der_sig_parse(sig):
     if t is None:
         return None
     ln, i, strict = t
-    if i + ln > len(sig):
-        return None
     if i + ln != len(sig):
-        strict = False
+        return None          # the structure must cover the whole field: bytes after it belong to nothing
     end = i + ln
     vals = []
     for _ in range(2):
@@ -83,7 +84,7 @@ def der_sig_parse(sig):
         vals.append(int.from_bytes(body, "big") if l2 else 0)
         i = j + l2
     if i != end:
-        strict = False
+        return None          # bytes after s inside the sequence
     return vals[0], vals[1], strict
 
 
